@@ -12,6 +12,13 @@ C = 'histories: BFS over operation sequences against a model of the global gener
 
 # id -> (engine, technique, level text, level note, design ref)
 CHECKS = {
+    'C18': ('smallscope', 'bounded-exhaustive enumeration of connected graphs / all graphs n<=6 with residuals of the defining equations',
+            'mean_first_passage_time (first-passage recurrence off the diagonal), diffusion_efficiency (elementwise inverse and mean), '
+            'pagerank_centrality (positive, sums to one, fixed-point equation; d in {0.5,0.85}, uniform and non-uniform falff) on every connected '
+            'graph over weights {1,2},{0.5,1} n<=4, binary n=5, every strongly connected digraph n<=4; subgraph_centrality = diag expm(A) and '
+            'eigenvector_centrality_und (non-negative unit eigenvector of lambda_max) on every undirected graph n<=6 and named symmetric graphs; '
+            'findwalks slots equal matrix powers on all graphs n<=5 / digraphs n<=4.',
+            'trusted: numpy/scipy linear algebra (expm, eigvalsh, matrix_power) as reference; tolerance 1e-8', 'DESIGN.md section 4 C18'),
     'C05': ('histories', 'explicit-state BFS over operation histories on the real library against a mirror model of the global generator + scripted-generator path exploration with global-state snapshots',
             'For every public callable with a seed parameter (found by introspection; 38 functions, 1-2 argument tuples): all operation sequences up to '
             'depth 4 (5 thorough) over {seed global 0/1, global draw, call(seed=int 0/1), call(seed=RandomState 0/1), unseeded call}, states deduplicated '
